@@ -28,6 +28,7 @@ RULE = (
 )
 ASSUMPTIONS = [
     "scheme FFNS3 (charm, bottom massive), grid G6, masses 1.5 and 4.5 so that four (Q2,m) pairs give an exactly representable threshold condition",
+    "mass reference scales Qmc/Qmb/Qmt equal to the masses, and for a sub-lattice lower, higher and absent (HQ=POLE: they must not move any threshold)",
     "PTO 2 for NC (the O(a_s^2) 'missing' non-singlet carries the only local term among the massive NC kernels); N3LO massive kernels are NaN on this tree (C16 known finding) and are not part of the lattice",
     "the intrinsic heavy-quark rows are not pair production and are excluded from the 'exactly zero' statement",
     "CC reference convolution as in C01 (ref_conv on ref_basis) but at the independently computed xi",
@@ -74,8 +75,18 @@ def _v(st, what, msg):
     return {"fp": fp, "fpkey": {"cls": what, "t": st["t"], "kind": st["kind"], "variant": st["variant"]}, "msg": msg}
 
 
-def _theory():
-    return {"mc": 1.5, "mb": 4.5, "Qmc": 1.5, "Qmb": 4.5, "RenScaleVar": False, "FactScaleVar": False}
+QM = {  # reference scales of the heavy-quark masses: with pole masses they must not influence any threshold
+    "lo": {"Qmc": 1.2, "Qmb": 4.0, "Qmt": 100.0},
+    "hi": {"Qmc": 3.0, "Qmb": 9.0, "Qmt": 300.0},
+    "del": {"Qmc": "__del__", "Qmb": "__del__", "Qmt": "__del__"},
+}
+
+
+def _theory(st=None):
+    th = {"mc": 1.5, "mb": 4.5, "Qmc": 1.5, "Qmb": 4.5, "RenScaleVar": False, "FactScaleVar": False}
+    if st is not None and st.get("qm"):
+        th.update(QM[st["qm"]])
+    return th
 
 
 def _states_grids(seed):
@@ -93,9 +104,20 @@ def _states_grids(seed):
     return out
 
 
+def _states_qm(seed):
+    """cards whose mass reference scales Qm? differ from the masses (or are absent): thresholds must follow the masses."""
+    out = []
+    for st in _states_base("thorough", seed):
+        if st["t"] == "nc" and st["kind"] == "F2" and st["process"] == "NC" and st["variant"] in ("thr-", "thr+", "exact", "ulp-", "ulp+", "below"):
+            out += [dict(st, qm=q) for q in QM]
+        if st["t"] == "cc" and st["kind"] == "F2" and st["projectile"] == "neutrino" and st["variant"] in ("xi=1-", "xi=1+", "xi=0.5"):
+            out += [dict(st, qm=q) for q in QM]
+    return out
+
+
 def states(tier, seed):
     """quick = the full base lattice; thorough = base lattice + the deep extension."""
-    base = _states_base("thorough", seed) + _states_grids(seed)
+    base = _states_base("thorough", seed) + _states_grids(seed) + _states_qm(seed)
     if tier == "quick":
         return base
     seen = {digest(s) for s in base}
@@ -126,7 +148,7 @@ def _nc(st):
         above_thr = st["variant"] in ("thr+", "above")
     ihq = {"charm": 4, "bottom": 5}[st["hq"]]
     names = [cards.obsname(st["kind"], h) for h in (st["hq"], "total", "light")]
-    cell = {"scheme": "FFNS3", "process": st["process"], "pto": 2, "theory": _theory()}
+    cell = {"scheme": "FFNS3", "process": st["process"], "pto": 2, "theory": _theory(st)}
     try:
         r = yrun.runner(cell, {n: [cards.kin(x, q2)] for n in names})
     except Exception as e:
@@ -161,6 +183,8 @@ def _nc(st):
                         zin = max(zt / 2, x)
                         if zin < zt * (1 - 1e-6) and rsl.reg(zin, rsl.args["reg"]) == 0.0 and cname != "NonSinglet":
                             viol.append(_v(st, "integrand-vanishes-below", f"{n}: {cname} order {o}: regular part vanishes at z={zin} below z_thr={zt}"))
+    if nker == 0:
+        viol.append(_v(st, "kernel-mass", f"{names[0]} {st['process']} Q2={q2}: no massive NC kernel of the kernel list carries the card's squared mass m2={m*m} (Qm variant {st.get('qm')})"))
     # operator level
     try:
         out = r.get_result()
@@ -177,7 +201,7 @@ def _nc(st):
             nontriv = True
     # light: at/above threshold the result must equal the one with that heavy quark decoupled (missing channel off)
     if above_thr:
-        th = dict(_theory())
+        th = dict(_theory(st))
         th["mc" if st["hq"] == "charm" else "mb"] = 1e4
         c2 = dict(cell, theory=th)
         out2, s2 = rel.try_run(c2, {names[2]: [cards.kin(x, q2)]})
@@ -203,7 +227,7 @@ def _cc(st):
     q2, x = st["Q2"], st["x"]
     xi_ref = x * (1.0 + m * m / q2)
     name = cards.obsname(st["kind"], st["hq"])
-    cell = {"scheme": "FFNS3", "process": "CC", "projectile": st["projectile"], "pto": 1, "theory": _theory(), "grid": st.get("grid", "G6")}
+    cell = {"scheme": "FFNS3", "process": "CC", "projectile": st["projectile"], "pto": 1, "theory": _theory(st), "grid": st.get("grid", "G6")}
     try:
         r = yrun.runner(cell, {name: [cards.kin(x, q2)]})
         esf = r.observables[name].elements[0]
@@ -246,6 +270,8 @@ def _cc(st):
                 pred[o][:, j] += w * xc * v
                 scale[o][:, j] += np.abs(w) * xc * abs(v)
                 perr[o][:, j] += np.abs(w) * xc * e
+    if nheavy == 0:
+        viol.append(_v(st, "cc-kernel-mass", f"{name} CC Q2={q2}: no massive CC kernel carries the card's rescaling factor 1/(1+m2/Q2) with m={m} (Qm variant {st.get('qm')})"))
     T = yrun.tensors(res)
     nonzero = False
     worst = 0.0
